@@ -266,15 +266,38 @@ func (_this *Reader) readSmallULEB128(name string, maxValue uint64) uint64 {
 }
 
 func (_this *Reader) readIntoBuffer(count int) {
-	_this.expandBufferTo(count)
-	dst := _this.buffer[:count]
-	for len(dst) > 0 {
-		if bytesRead, err := _this.reader.Read(dst); err != nil {
-			_this.unexpectedError(err)
-		} else {
-			_this.markBytesRead(bytesRead)
-			dst = dst[bytesRead:]
+	// The count usually comes from a length field in the document, which may be
+	// corrupt or hostile. Grow the buffer as data actually arrives instead of
+	// reserving the announced size up front: each step at most doubles what has
+	// already been received.
+	filled := 0
+	for filled < count {
+		end := count
+		if maxEnd := filled*2 + minBufferReadAhead; end > maxEnd {
+			end = maxEnd
 		}
+		_this.expandBufferPreserving(end, filled)
+		dst := _this.buffer[filled:end]
+		for len(dst) > 0 {
+			if bytesRead, err := _this.reader.Read(dst); err != nil {
+				_this.unexpectedError(err)
+			} else {
+				_this.markBytesRead(bytesRead)
+				dst = dst[bytesRead:]
+			}
+		}
+		filled = end
+	}
+}
+
+// How far past the data already received the buffer may grow in one step.
+const minBufferReadAhead = 1024
+
+func (_this *Reader) expandBufferPreserving(minSize int, preserveCount int) {
+	if len(_this.buffer) < minSize {
+		newBuffer := make([]byte, minSize*2)
+		copy(newBuffer, _this.buffer[:preserveCount])
+		_this.buffer = newBuffer
 	}
 }
 
